@@ -1211,7 +1211,6 @@ name_parse(u8 *packet, int length, int *idx, char *name_out, int name_out_len) {
 	int name_end = -1;
 	int j = *idx;
 	int ptr_count = 0;
-	int wire_len = 1; /* octets the expanded name needs on the wire */
 #define GET32(x) do { if (j + 4 > length) goto err; memcpy(&t32_, packet + j, 4); j += 4; x = ntohl(t32_); } while (0)
 #define GET16(x) do { if (j + 2 > length) goto err; memcpy(&t_, packet + j, 2); j += 2; x = ntohs(t_); } while (0)
 #define GET8(x) do { if (j >= length) goto err; x = packet[j++]; } while (0)
@@ -1243,9 +1242,6 @@ name_parse(u8 *packet, int length, int *idx, char *name_out, int name_out_len) {
 		}
 		/* 0x40 and 0x80 are reserved label types (RFC 1035 4.1.4) */
 		if (label_len > 63) return -1;
-		/* RFC 1035 2.3.4: names are limited to 255 octets */
-		wire_len += 1 + label_len;
-		if (wire_len > 255) return -1;
 		if (cp != name_out) {
 			if (cp + 1 >= end) return -1;
 			*cp++ = '.';
@@ -1960,7 +1956,6 @@ dnsname_to_labels(u8 *const buf, size_t buf_len, off_t j,
 				  const char *name, const size_t name_len,
 				  struct dnslabel_table *table) {
 	const char *end = name + name_len;
-	const off_t name_start = j;
 	int ref = 0;
 	u16 t_;
 
@@ -2028,8 +2023,6 @@ dnsname_to_labels(u8 *const buf, size_t buf_len, off_t j,
 		if ((size_t)j + 1 > buf_len) return -2;
 		buf[j++] = 0;
 	}
-	/* RFC 1035 2.3.4: at most 255 octets on the wire */
-	if (j - name_start > 255) return -2;
 	return j;
  overflow:
 	return (-2);
